@@ -205,6 +205,11 @@ def run_linop(ctx, prop, prop_file, n_quick, n_thorough, want):
             T = S.term(A)
         except linser.Unsupported:
             continue
+        except RecursionError:
+            # the object graph contains itself: an overload (+, -, *) altered one of its operands while building the expression
+            note_fail("cyclic-operator", "the operator built by the expression %s contains itself (an overload altered its operand)" % " ".join(map(str, c.log[:6])),
+                      {"kind": "oracle", "expression": [str(e) for e in c.log[:12]]})
+            continue
         made += 1
         top = type(A).__name__
         desc = {"tree": repr(A)[:200], "kinds": c.log[:12], "ishape": list(map(int, A.ishape)), "oshape": list(map(int, A.oshape))}
